@@ -458,6 +458,25 @@ Proof.
     + eexists. cbn [tunnels]. unfold upd. rewrite N.eqb_refl. split; reflexivity.
 Qed.
 
+Lemma step_outgoing_endpoint s a pl id p :
+  snd (step s (EPacketOut a pl)) = OEncrypted a id p ->
+  exists t, tunnels s a = Some t /\ peer_static t = id /\ p = snd (wg_out (tunn t) pl) /\
+            is_authorized (reg s) (now s) id = true.
+Proof.
+  cbn [Model_C09.step]. unfold Model_C09.handle_outgoing. destruct (tunnels s a) as [t|]; [|discriminate].
+  destruct (is_authorized (reg s) (now s) (peer_static t)) eqn:A; [|discriminate].
+  destruct (wg_out (tunn t) pl) as [w' q] eqn:Ew. cbn [snd]. intros E; inversion E; subst.
+  exists t. refine (conj eq_refl (conj eq_refl (conj _ A))). rewrite Ew. reflexivity.
+Qed.
+
+Lemma run_entry_is_step es : forall s s1 e o,
+  In (s1, e, o) (snd (run s es)) -> o = snd (step s1 e).
+Proof.
+  induction es as [|e0 es IH]; intros s s1 e o Hin; [destruct Hin|].
+  rewrite run_cons in Hin. cbn [snd] in Hin. destruct Hin as [Heq|Hin]; [|exact (IH _ _ _ _ Hin)].
+  inversion Heq; subst. reflexivity.
+Qed.
+
 End Server.
 
 (** * the toy endpoint satisfies the WireGuard hypothesis *)
